@@ -402,10 +402,9 @@ fn respond(g: &mut Sim, kind: Kind, apdu: &[u8], d: &Directive) -> Vec<Vec<u8>> 
         Kind::PreAuthReversal => {
             let rc = req.as_ref().and_then(|v| get_u(v, "receipt_no")).unwrap_or(0);
             if let Some(i) = g.ledger.iter().position(|p| p.receipt == rc) {
+                // (a dangling pre-authorisation that happens to carry the same receipt number stays: the reference model
+                // in props/c07.rs mirrors exactly this rule)
                 g.ledger.remove(i);
-                if g.dangling == Some(rc) {
-                    g.dangling = None;
-                }
                 r.push(completion_packet());
             } else if g.dangling == Some(rc) {
                 g.dangling = None;
